@@ -175,6 +175,15 @@ def srcStep (_ : Unit) (ops : List String) (_impl : String) : Unit × String :=
     match ops with
     | ["mux", k, c, p] => srcMux k c p
     | ["demux", k, f] => srcDemux k f
+    | ["oid", "rt", arcs] =>
+      let xs : List Int := if arcs == "-" then [] else (arcs.splitOn ".").map intArg
+      showM (do
+        let o ← oids.New xs
+        let n ← oids.OID.Len o
+        let ats ← (List.range n.toNat).mapM (fun (i : Nat) => oids.OID.At o (Int.ofNat i))
+        let asn ← oids.OID.ASN1 o
+        let z ← oids.OID.IsZero o
+        pure s!"len={n} at={".".intercalate (ats.map (fun u => toString u.toNat))} asn1={".".intercalate (asn.map toString)} zero={b2s z}") id
     | ["mtu", "mb", inner, cfg] => showM (mbapp.Swarm.MTU (intArg cfg) (intArg inner)) toString
     | ["mtu", "frag", inner, cfg] => showM (fragswarm.swarm.MTU (intArg cfg) (intArg inner)) toString
     | ["kad", "dop", op, key, param, init, tab] =>
